@@ -77,13 +77,14 @@ Notation "'do' '(' a ',' b ')' <- r ; k" := (bind r (fun ab => let '(a, b) := ab
 Record dialect := mk_dialect {
   d_allow_extend_merges : bool;        (* SQLModel.allow_extend_merges *)
   d_rewrite_right : bool;              (* SQLiteModel.natural_join_to_near_sql: a RIGHT join is written as a LEFT join *)
-  d_rewrite_full : bool                (* ... and a FULL join as key table + two LEFT joins when sqlite3.sqlite_version_info < (3, 39, 0) *)
+  d_rewrite_full : bool;               (* ... and a FULL join as key table + two LEFT joins when sqlite3.sqlite_version_info < (3, 39, 0) *)
+  d_join_carry : bool                  (* _natural_join_sub_queries lets a side none of whose columns is needed carry one column
+                                          (pending_fixes/SQLGEN-join-unused-side-carries-a-column.patch; read off the code at run time) *)
 }.
-Definition d_sqlite := mk_dialect true true false.              (* SQLiteModel linked with SQLite 3.39+ (here: 3.40.1) *)
-Definition d_sqlite_nomerge := mk_dialect false true false.
-Definition d_sqlite_pre339 := mk_dialect true true true.        (* SQLiteModel linked with an older engine: FULL join emulated *)
-Definition d_sqlite_pre339_nomerge := mk_dialect false true true.
-Definition d_generic := mk_dialect true false false.            (* DBModel / PostgreSQLModel *)
+Definition d_sqlite := mk_dialect true true false false.        (* SQLiteModel linked with SQLite 3.39+ (here: 3.40.1), code as found *)
+Definition d_sqlite_nomerge := mk_dialect false true false false.
+Definition d_sqlite_pre339 := mk_dialect true true true false.  (* SQLiteModel linked with an older engine: FULL join emulated *)
+Definition d_generic := mk_dialect true false false false.      (* DBModel / PostgreSQLModel *)
 
 (* NearSQL.__init__: self.terms = terms.copy() only for a non-empty dict, else None *)
 Definition norm {A} (l : list A) : option (list A) := match l with [] => None | _ => Some l end.
@@ -236,7 +237,7 @@ Definition narrow_or_first (subsql : tnear) (keep : list string) : option tnear 
 
 (* DBModel.natural_join_to_near_sql with _natural_join_sub_queries; (a, b, on_a, on_b, jt) are the fields of the (possibly
    copied) join node, `p` the node whose column_names are consulted *)
-Definition gen_join (srca srcb : option (list string) -> gen) (p a b : op) (on_a on_b : list string) (jt : jointype)
+Definition gen_join (d : dialect) (srca srcb : option (list string) -> gen) (p a b : op) (on_a on_b : list string) (jt : jointype)
            (left_is_first : bool) (usg : option (list string)) : gen := fun n =>
   let pj := OJoin a b on_a on_b jt in          (* sources and key lists as the (copied) node has them *)
   let using0 := match usg with Some u => u | None => column_names p end in     (* column_names: the ORIGINAL node's attribute *)
@@ -248,6 +249,8 @@ Definition gen_join (srca srcb : option (list string) -> gen) (p a b : op) (on_a
     let ask := set_union (set_union using1 on_a) on_b in
     let using_left := cfs1 pj ask in
     let using_right := cfs2 pj ask in
+    let using_left := if d_join_carry d && is_nil using_left then firstn 1 (column_names a) else using_left in
+    let using_right := if d_join_carry d && is_nil using_right then firstn 1 (column_names b) else using_right in
     do (sql_left, n2) <- srca (Some using_left) n1;
     do (sql_right, n3) <- srcb (Some using_right) n2;
     let common := set_inter using_left using_right in
@@ -337,15 +340,15 @@ Fixpoint to_near_f (fuel : nat) (d : dialect) (p : op) (usg : option (list strin
         match jt with
         | JRight =>
             if d_rewrite_right d
-            then gen_join (rec b) (rec a) p b a on_b on_a JLeft false usg n    (* _emit_right_join_as_left_join *)
-            else gen_join (rec a) (rec b) p a b on_a on_b jt true usg n
+            then gen_join d (rec b) (rec a) p b a on_b on_a JLeft false usg n    (* _emit_right_join_as_left_join *)
+            else gen_join d (rec a) (rec b) p a b on_a on_b jt true usg n
         | JFull =>
             if d_rewrite_full d then                                           (* _emit_full_join_as_complex *)
               if is_nil on_a then Raise                                        (* assert len(join_node.on_a) > 0 *)
               else if negb (eqb on_a on_b) then Raise                          (* assert join_node.on_a == join_node.on_b *)
               else rec (full_join_rewrite a b on_a) (Some using0) n
-            else gen_join (rec a) (rec b) p a b on_a on_b jt true usg n
-        | _ => gen_join (rec a) (rec b) p a b on_a on_b jt true usg n
+            else gen_join d (rec a) (rec b) p a b on_a on_b jt true usg n
+        | _ => gen_join d (rec a) (rec b) p a b on_a on_b jt true usg n
         end
     | OConcat a b idc an bn =>                                                 (* concat_rows_to_near_sql *)
         let using1 := if is_nil using0 then firstn 1 (column_names p) else using0 in      (* 2bf9832 *)
